@@ -216,7 +216,7 @@ def ob_path_set(kind: int, ai: int, n: int, s0: int, s1: int, s2: int, vi: int) 
         return deq(to_plain(back), v)
 
 
-M_DS, M_T, M_TC, M_UNREL, M_DS2 = 0, 1, 2, 3, 4
+M_DS, M_T, M_TC, M_UNREL, M_DS2, M_T_PARTIAL, M_T_EMPTY = 0, 1, 2, 3, 4, 5, 6
 
 
 def _merge_operand(k: int, tag: int) -> Any:
@@ -228,18 +228,22 @@ def _merge_operand(k: int, tag: int) -> Any:
         return TChild(a=tag, b=[tag], c={"k": tag}, n=tag)
     if k == M_UNREL:
         return Unrelated(z=tag)
+    if k == M_T_PARTIAL:
+        return TState(a=tag)      # field b NOT passed: it holds its default, and the default is part of the parent's value
+    if k == M_T_EMPTY:
+        return TState()           # nothing passed at all
     return DictState()
 
 
 @obligation(quick=90, thorough=200,
             what="merge_state: same type (or subclass instance) replaces, parent type merges parent fields keeping child fields, "
-                 "unrelated type raises ValueError (traced)")
+                 "unrelated type raises ValueError; a parent instance with fields left at their defaults overwrites with those defaults (traced)")
 def ob_merge_state(ck: int, ik: int) -> bool:
     """
-    pre: 0 <= ck <= 4 and ck != 3 and 0 <= ik <= 4
+    pre: 0 <= ck <= 4 and ck != 3 and 0 <= ik <= 6
     post: _
     """
-    ck, ik = cint(ck, 0, 4), cint(ik, 0, 4)
+    ck, ik = cint(ck, 0, 4), cint(ik, 0, 6)
     with untraced():
         cur, inc = _merge_operand(ck, 1), _merge_operand(ik, 2)
         before = to_plain(cur)
